@@ -173,7 +173,7 @@ class Runner:
             for k in self.fired:
                 self.fired[k] += plan.fired[k]
         self.log.add("variant", tag, [fx(t) for t in times], as_list, tdig(ys), len(rec.trace))
-        return ys, rec.trace
+        return ys, [(r[0], r[1]) for r in stubs.steps_of(rec.trace)]
 
 
 def run_case(case, keep_log=False):
@@ -199,8 +199,8 @@ def run_case(case, keep_log=False):
         B, d = R.spec["batch"], R.spec["d"]
         # the trace must be the LoopModel grid
         model = loop_model_grid(t0, T, dt, tdt)
-        grid = [trace0[0][0]] + [tb for (_, tb, _, _) in trace0] if trace0 else [t0]
-        for i, (ta, tb, _, _) in enumerate(trace0):
+        grid = [trace0[0][0]] + [tb for (_, tb) in trace0] if trace0 else [t0]
+        for i, (ta, tb) in enumerate(trace0):
             if ta != grid[i]:
                 raise Violation("trace_not_contiguous", {"step": i, "ta": fx(ta), "want": fx(grid[i])}, "V0")
         if grid != model:
